@@ -6,12 +6,16 @@
 (* the specification requires); the run itself never fails on a mismatch,  *)
 (* so every record of the file is evaluated.                               *)
 (*  k = "h1"   key, out            murmur.Murmur3H1(key) printed in decimal*)
-(*  k = "m3"   key, out            murmur3Partitioner.Hash(key).String()   *)
-(*  k = "rnd"  key, md5, out       randomPartitioner.Hash(key).String(),   *)
+(*  k = "m3"   key, out, out2      murmur3Partitioner.Hash(key).String()   *)
+(*  k = "rnd"  key, md5, out, out2 randomPartitioner.Hash(key).String(),   *)
 (*                                 md5 = crypto/md5 digest of key (trusted)*)
+(*  out = the value right after the call; out2 = the SAME returned object  *)
+(*  (token / routing-key slice), still held by the caller, read again      *)
+(*  after further keys and tokens for other inputs were produced - both    *)
+(*  must be what the specification requires.                               *)
 (*  k = "ord"  a, b, sa, less      orderedPartitioner: Hash(a).Less(Hash(b)) *)
 (*                                 (sa = Hash(a).String() bytes: drift only)*)
-(*  k = "rk"   vals, idx, out, err createRoutingKey / Query.GetRoutingKey  *)
+(*  k = "rk"   vals, idx, out, out2, err   createRoutingKey / GetRoutingKey *)
 (*  k = "cmp"  p, a, b, ra, less   p.ParseString(a).Less(p.ParseString(b)) *)
 (*                                 (ra = ParseString(a).String(): drift)   *)
 (*  k = "cmpk" p, a, key, md5, ak, ka   Parse(a).Less(Hash(key)) and       *)
@@ -36,10 +40,10 @@ KeyTokAscii(p, key, md5) == IF p = "m3" THEN Murmur3TokenAscii(key) ELSE RandomT
 Verdict(r) ==
   IF r.panic # "" THEN V(FALSE, <<-2>>) ELSE
   CASE r.k = "h1" -> LET e == H1Ascii(r.key) IN V(r.out = e, e)
-    [] r.k = "m3" -> LET e == Murmur3TokenAscii(r.key) IN V(r.out = e, e)
-    [] r.k = "rnd" -> LET e == RandomTokenAscii(r.md5) IN V(r.out = e, e)
+    [] r.k = "m3" -> LET e == Murmur3TokenAscii(r.key) IN V(r.out = e /\ r.out2 = e, e)
+    [] r.k = "rnd" -> LET e == RandomTokenAscii(r.md5) IN V(r.out = e /\ r.out2 = e, e)
     [] r.k = "ord" -> LET e == BytesLt(r.a, r.b) IN D(V(r.less = e, B(e)), r.sa = r.a, "orderedToken.String() is not the key")
-    [] r.k = "rk" -> LET e == RoutingKey(r.vals, r.idx) IN V(r.err = "" /\ r.out = e, e)
+    [] r.k = "rk" -> LET e == RoutingKey(r.vals, r.idx) IN V(r.err = "" /\ r.out = e /\ r.out2 = e, e)
     [] r.k = "cmp" -> LET e == DecLt(r.a, r.b) IN
                       D(V(IsCanonDec(r.a) /\ IsCanonDec(r.b) => r.less = e, B(e)), IsCanonDec(r.a) => r.ra = r.a,
                         "ParseString(s).String() is not s")
